@@ -30,6 +30,11 @@ RULE = ("case kinds: 'where' = a workflow (2-5 targets) whose targets are create
         "asserted); duplicate names rejected; map creates len(items) targets with distinct, reproducible names. "
         "Non-trivial: a template- or map-made target with relative paths invoked from another directory, or a "
         "name/path candidate in a must-reject class that resembles a valid one (trailing newline, control character). "
+        ""
+        "Also: consumers spell their producer's file as ./x, nested/../x, .//x; map over one-shot iterables; "
+        "`-f lnk/../proj/workflow.py` where lnk is a directory symlink; `gwf touch` from one of the invoking "
+        "directories (declared files made in the project, nothing in the invoking directory, all completed "
+        "afterwards). "
         "Distinct = SHA-1 of canonical case JSON.")
 ASSUMPTIONS = [
     "in-process CLI with the process working directory changed per invocation (sub-process cross-check in the thorough tier)",
